@@ -145,7 +145,7 @@ def _vm_reqs(tok):
     return _vm_list(ps, "str"), _vm_list(qs, "(list (str * str * option N))")
 
 
-_VM_PRELUDE = """From Oras Require Import Base.Prelude Generated.GC15 Model.Paging.
+_VM_PRELUDE = """From Oras Require Import Base.Prelude Generated.GC15 Model.Paging Model.PagingUrl.
 Definition vm_dead : response := mkResp 599 false [] false 0 0 [] [] [] [].
 Definition vm_resolve (tbl : list (str * option url)) (_ : url) (t : str) : option url :=
   match find (fun e => str_eqb (fst e) t) tbl with Some e => snd e | None => None end.
@@ -211,6 +211,27 @@ def _vm_goal(case, out):
             ["(%s, %s)" % tuple(_vm_str(x) for x in e.split(":")) for e in p[1].split(",")], "(str * str)")
         exp = _vm_list([] if o[0] == "_" else [_vm_str(x) for x in o[0].split(",")], "str")
         return "list_tags %s %s = %s" % (ents, _vm_str(p[2]), exp)
+    if k == "U":
+        kd, n, sch, hst, bp, bq, hdr = p[1:8]
+        call = "next_request (mkCfg %s %s 0%%Z []) (mkS %s %s %s %s) %s" % (_vm_kind(kd), _vm_z(n), _vm_str(sch), _vm_str(hst), _vm_str(bp), _vm_str(bq), _vm_str(hdr))
+        exp = {"NONE": "NNone", "ERRLINK": "NErrLink", "ERRRESOLVE": "NErrResolve", "UNJUDGED": "NUnjudged"}.get(o[0])
+        if o[0] == "NEXT":
+            exp = "NNext %s %s" % (_vm_str(o[1]), _vm_str(o[2]))
+        return "%s = %s" % (call, exp)
+    if k == "U0":
+        kd, n, at, last = p[1:5]
+        q0 = "(referrers_q0 %s)" % _vm_str(at) if kd == "R" else "(@nil N)"
+        return "first_query (mkCfg %s %s 0%%Z %s) %s %s = %s" % (_vm_kind(kd), _vm_z(n), _vm_str(at), q0, _vm_str(last), _vm_str(o[0]))
+    if k == "QS":
+        kvs = _vm_list(["(%s, %s)" % (_vm_str(p[i]), _vm_str(p[i + 1])) for i in range(2, len(p) - 1, 2)], "(str * str)")
+        return "set_query_params %s %s = %s" % (_vm_str(p[1]), kvs, _vm_str(o[0]))
+    if k == "QE":
+        return "(query_escape %s, query_unescape %s) = (%s, %s)" % (_vm_str(p[1]), _vm_str(p[1]), _vm_str(o[0]), "None" if o[1] == "!" else "Some %s" % _vm_str(o[1]))
+    if k == "RR":
+        call = "resolve_ref (mkS %s %s %s %s) %s" % tuple(_vm_str(x) for x in p[1:6])
+        if o[0] == "OK":
+            return "%s = ROk (mkS %s %s %s %s)" % ((call,) + tuple(_vm_str(x) for x in o[1:5]))
+        return "%s = %s" % (call, {"ERR": "RErr", "UNJUDGED": "RUnjudged"}[o[0]])
     if k == "P":
         state = {"U": "RUnknown", "S": "RSupported", "N": "RUnsupported"}
         rs = "(mkResp %s %s %s true 0 0 [] [] [] [])" % (p[2], _vm_bool(p[3]), _vm_str(p[4]))
@@ -234,7 +255,8 @@ def _c15_vm_sample(d, tier, coq, build, want=300):
             i, _, o = l.rstrip("\n").partition(" ")
             outs[i] = o
     # a spread over the case kinds, small cases preferred (the term is type-checked too)
-    quota = {"C": 105, "W": 75, "S": 50, "L": 15, "F": 8, "FR": 8, "Z": 6, "O": 12, "X": 11, "P": 10}
+    quota = {"C": 80, "W": 60, "S": 45, "L": 10, "F": 6, "FR": 6, "Z": 6, "O": 10, "X": 10, "P": 8,
+             "U": 40, "U0": 10, "QS": 15, "QE": 10, "RR": 40}
     got = collections.Counter()
     stride = collections.Counter()
     total = collections.Counter()
